@@ -26,33 +26,53 @@ GRAPHS = {
     "lib-bare": ({}, ["math.facto"], ""),
     "lib-documented": ({}, ["lib/math.facto"], ""),
     "lib-and-local": ({"a.facto": (["math.facto"], "a")}, ["a.facto", "math.facto"], "a"),
+    # the files live in a user library directory that is listed in FACTORIO_IMPORT_PATH (after "."); the entry file
+    # u.facto exists only there, its imports name siblings
+    "libpath-sibling": ({"u.facto": (["b.facto"], "a"), "b.facto": (["c.facto"], "b"), "c.facto": ([], "c")}, ["u.facto"], "abc"),
+    "libpath-subdir": ({"pk/u.facto": (["b.facto"], "a"), "pk/b.facto": ([], "b")}, ["pk/u.facto"], "ab"),
 }
+LIBPATH = ("libpath-sibling", "libpath-subdir")
+DECOY = "func f{n}(Signal s) {{\n    return s * 100 + {k};\n}}\n"
 
 
-def build(graph, td):
+def build_decoys(graph, dd):
+    """same-named files with different bodies in the working directory 'decoy' (never the names main itself imports)"""
     files, main_imports, used = GRAPHS[graph]
     for rel, (imps, fn) in files.items():
-        p = os.path.join(td, rel)
+        if rel in main_imports or rel[:-6] in main_imports:
+            continue
+        for target in {rel, os.path.basename(rel)}:
+            p = os.path.join(dd, target)
+            os.makedirs(os.path.dirname(p), exist_ok=True)
+            open(p, "w").write(DECOY.format(n=fn, k=100 + ord(fn)))
+
+
+def build(graph, td, libdir=None):
+    files, main_imports, used = GRAPHS[graph]
+    for rel, (imps, fn) in files.items():
+        p = os.path.join(libdir if graph in LIBPATH else td, rel)
         os.makedirs(os.path.dirname(p), exist_ok=True)
         open(p, "w").write("".join(f'import "{i}";\n' for i in imps) + F[fn])
     body = MAIN_TAIL
     for i, fn in enumerate(used):
         body += f"Signal r{i} = f{fn}(x + {i});\n"
-    if graph.startswith("lib"):
+    if graph.startswith("lib-"):
         body += "Signal r9 = abs(x - 9) + max(x, 2);\n"
     if graph == "lib-and-local":
         body += "Signal r8 = min(x, 3);\n"
     main = "".join(f'import "{i}";\n' for i in main_imports) + body
     # pasted twin: every file's text once
     pasted = "".join(F[fn] for fn in sorted(used))
-    if "lib" in graph:
+    if "lib-" in graph:
         pasted += open(os.path.join(harness.REPO, "lib", "math.facto")).read() + "\n"
     return main, pasted + body
 
 
-def canon_sub(path, cwd, as_file=True, timeout=120):
+def canon_sub(path, cwd, as_file=True, timeout=120, import_path=None):
     env = dict(os.environ, PYTHONPATH=f"{core.VERIF}:{harness.REPO}", PYTHONDONTWRITEBYTECODE="1", PYTHONHASHSEED="0")
     env.pop("FACTORIO_IMPORT_PATH", None)
+    if import_path:
+        env["FACTORIO_IMPORT_PATH"] = import_path
     args = [sys.executable, "-m", "fv.canon_cli", "--src", path, "--cwd", cwd] + (["--as-file"] if as_file else [])
     try:
         pr = subprocess.run(args, env=env, capture_output=True, text=True, timeout=timeout, cwd=core.VERIF)
@@ -122,8 +142,10 @@ class C17(core.Check):
     level = "exploration"
     timeout = 600
     rule = ("(a) import graphs over generated files (single, no suffix, chain, diamond, same file twice, cycle, self-import, "
-            "sub-directories, bundled library by bare name and by the documented 'lib/math.facto' form, library + local) x "
-            "working directories {repository root, /, the importer's directory, an empty directory} x entry {file, -i for "
+            "sub-directories, bundled library by bare name and by the documented 'lib/math.facto' form, library + local, files "
+            "in a user library directory listed in FACTORIO_IMPORT_PATH that import their siblings) x "
+            "working directories {repository root, /, the importer's directory, an empty directory, a directory holding "
+            "same-named decoy files with different bodies} x entry {file, -i for "
             "library-only graphs}: the compilation must terminate and its canonical circuit must equal that of the twin "
             "with the files' text pasted in once; (b) every function of lib/math.facto x the full product of 9 boundary "
             "values per Signal parameter and a menu of int-parameter tuples, compared with the documented formula in "
@@ -134,7 +156,9 @@ class C17(core.Check):
     def cases(self, tier):
         out = []
         for g in GRAPHS:
-            for cwd in ("repo", "root", "importer", "empty"):
+            for cwd in ("repo", "root", "importer", "empty", "decoy"):
+                if cwd == "decoy" and not GRAPHS[g][0]:
+                    continue
                 out.append({"kind": "import", "graph": g, "cwd": cwd, "entry": "file"})
             if g.startswith("lib-") and g != "lib-and-local":
                 for cwd in ("repo", "root", "empty"):
@@ -153,11 +177,17 @@ class C17(core.Check):
             proj = os.path.join(td, "proj")
             os.makedirs(proj)
             os.makedirs(os.path.join(td, "empty"))
-            main, pasted = build(case["graph"], proj)
+            libs = os.path.join(td, "libs")
+            os.makedirs(libs)
+            os.makedirs(os.path.join(td, "decoy"))
+            main, pasted = build(case["graph"], proj, libs)
+            build_decoys(case["graph"], os.path.join(td, "decoy"))
             mp = os.path.join(proj, "main.facto")
             open(mp, "w").write(main)
-            cwd = {"repo": harness.REPO, "root": "/", "importer": proj, "empty": os.path.join(td, "empty")}[case["cwd"]]
-            got = canon_sub(mp, cwd, as_file=(case["entry"] == "file"))
+            cwd = {"repo": harness.REPO, "root": "/", "importer": proj, "empty": os.path.join(td, "empty"),
+                   "decoy": os.path.join(td, "decoy")}[case["cwd"]]
+            ip = ";".join([".", libs, os.path.join(harness.REPO, "lib"), harness.REPO]) if case["graph"] in LIBPATH else None
+            got = canon_sub(mp, cwd, as_file=(case["entry"] == "file"), import_path=ip)
             try:
                 tw = harness.compile_src(pasted)
             except harness.Rejected as ex:
